@@ -33,11 +33,11 @@ def configs(tier, seed):
             cfgs.append(dict(kind="cluster", n=n, k=k, model="knn", force=True, K=K, sub="knn",
                              weight=(n ** n) * 10 ** k * 3, wstride=7 if n <= 3 else 397))
     # ... and the real fit() end to end (candidate clusterings, then the forced one, on the same graph)
-    e2e = [(3, 1, 1, [0, 1, 0], [1]), (3, 1, 1, [0, 0, 1], [0]), (3, 2, 1, [0, 1, 1], [0, 1])]
+    e2e = [(3, 1, 1, [0, 1, 0], [1]), (3, 1, 1, [0, 0, 1], [0]), (3, 2, 1, [0, 1, 1], [0, 1]), (3, 1, 2, [0, 1, 0], [1])]
     if tier == "thorough":
-        e2e += [(3, 1, 2, [0, 1, 0], [1]), (4, 1, 1, [0, 1, 0, 1], [0]), (4, 1, 2, [0, 1, 1, 0], [1])]
+        e2e += [(3, 1, 2, [0, 0, 1], [1]), (4, 1, 1, [0, 1, 0, 1], [0]), (4, 1, 2, [0, 1, 1, 0], [1])]
     for n, nv, mk, labs, vl in e2e:
-        cfgs.append(dict(kind="e2e", model="knn", n=n, nv=nv, max_k=mk, labels=labs, vlabels=vl, sub="knn",
+        cfgs.append(dict(kind="e2e", model="knn", n=n, nv=nv, max_k=mk, labels=labs, vlabels=vl, sub="knn", logic="fresh",
                          weight=(n ** n) * 500 * mk, deadline_s=2400))
     return cfgs
 
